@@ -6,14 +6,16 @@
    i.e. what Message.add_string puts on the wire (asbytes: str is UTF-8 encoded, bytes are
    taken as they are) and what Message.get_string returns (bytes).  Times are integers
    (int() of a float time is applied by the harness before the comparison). *)
-From PV Require Import Bytes C39.
+From PV Require Import Bytes C39 C33_gen.
 Open Scope Z_scope.
 
-Definition FLAG_SIZE : Z := 1.
-Definition FLAG_UIDGID : Z := 2.
-Definition FLAG_PERMISSIONS : Z := 4.
-Definition FLAG_AMTIME : Z := 8.
-Definition FLAG_EXTENDED : Z := 2147483648.   (* x80000000 *)
+(* the class constants FLAG_*, regenerated from paramiko/sftp_attr.py on every run (Gen/C33_gen.v);
+   gen/c33.py also pins by AST the statement sequence of _pack / _unpack that this file mirrors *)
+Definition FLAG_SIZE : Z := G_FLAG_SIZE.
+Definition FLAG_UIDGID : Z := G_FLAG_UIDGID.
+Definition FLAG_PERMISSIONS : Z := G_FLAG_PERMISSIONS.
+Definition FLAG_AMTIME : Z := G_FLAG_AMTIME.
+Definition FLAG_EXTENDED : Z := G_FLAG_EXTENDED.
 
 Definition bstr := list Z.
 
@@ -157,23 +159,34 @@ Definition dec_pair (fl bit : Z) (buf : list Z) (p : nat) : option Z * option Z 
   else (None, None, p).
 Definition dec_mode (fl : Z) (buf : list Z) (p : nat) : option Z * nat :=
   if has fl FLAG_PERMISSIONS then let '(v, q) := get_int buf p in (Some v, q) else (None, p).
-Definition dec_ext (swapped : bool) (fl : Z) (buf : list Z) (p : nat) : list (bstr * bstr) * nat :=
+(* `bounded` = the code with the guard
+     if count > len(msg.get_remainder()) // 8: raise SSHException(...)
+   in front of the loop (each pair is two length-prefixed strings, at least 8 bytes) *)
+Definition dec_ext (bounded swapped : bool) (fl : Z) (buf : list Z) (p : nat)
+  : result (list (bstr * bstr) * nat) :=
   if has fl FLAG_EXTENDED
-  then let '(count, q) := get_int buf p in ext_loop swapped (ext_fuel count buf) buf q []
-  else ([], p).
+  then let '(count, q) := get_int buf p in
+       if bounded && (count >? Z.of_nat (length (skipn q buf)) / 8) then Raise SSHExc
+       else Ok (ext_loop swapped (ext_fuel count buf) buf q [])
+  else Ok ([], p).
 
 (* _unpack on a fresh object (SFTPAttributes._from_msg): returns (_flags, fields, read position) *)
-Definition unpack_gen (swapped : bool) (buf : list Z) (pos : nat) : Z * attrs * nat :=
+Definition unpack_gen (bounded swapped : bool) (buf : list Z) (pos : nat) : result (Z * attrs * nat) :=
   let '(fl, p0) := get_int buf pos in
   let '(sz, p1) := dec_size fl buf p0 in
   let '(u, g, p2) := dec_pair fl FLAG_UIDGID buf p1 in
   let '(md, p3) := dec_mode fl buf p2 in
   let '(at_, mt, p4) := dec_pair fl FLAG_AMTIME buf p3 in
-  let '(ex, p5) := dec_ext swapped fl buf p4 in
-  (fl, MkAttrs sz u g md at_ mt ex, p5).
+  match dec_ext bounded swapped fl buf p4 with
+  | Ok (ex, p5) => Ok (fl, MkAttrs sz u g md at_ mt ex, p5)
+  | Raise e => Raise e
+  end.
 
-Definition unpack := unpack_gen false.       (* the code as repaired *)
-Definition unpack_v0 := unpack_gen true.     (* the code before the repair *)
+(* the code in the working tree (whether the count guard is present is read from the source by
+   gen/c33.py); every theorem is proved for both settings of `bounded` *)
+Definition unpack := unpack_gen G_COUNT_BOUNDED false.
+(* the code before the first repair: key and value exchanged *)
+Definition unpack_v0 := unpack_gen G_COUNT_BOUNDED true.
 
 (* ---- what the theorem talks about ------------------------------------------ *)
 (* an id / time that has no partner is not written by _pack (not representable on the wire) *)
@@ -207,10 +220,13 @@ Definition run_pack (a : attrs) : list Z := canon_result (pack a).
 Definition run_pack_obj (c : Z * attrs) : list Z :=
   let '(r, fl) := pack_obj (fst c) (snd c) in canon_result r ++ (-1) :: enc_z fl.
 Definition run_unpack (buf : list Z) : list Z :=
-  let '(fl, a, p) := unpack buf 0 in enc_z fl ++ canon_attrs a ++ [Z.of_nat p].
+  match unpack buf 0 with
+  | Ok (fl, a, p) => 0 :: enc_z fl ++ canon_attrs a ++ [Z.of_nat p]
+  | Raise e => [exn_code e]
+  end.
 (* pack then unpack, followed by arbitrary trailing bytes *)
 Definition run_roundtrip (c : attrs * list Z) : list Z :=
   match pack (fst c) with
-  | Ok bs => 0 :: run_unpack (bs ++ snd c)
+  | Ok bs => run_unpack (bs ++ snd c)
   | Raise e => [exn_code e]
   end.
